@@ -35,11 +35,11 @@ m('C03', 'min_by_swapped', 'src/par_iter.rs', """        self.reduce(|x, y| matc
             Ordering::Greater => x,
         })""", 'C03-WRAP')
 m('C03', 'max_by_key_cmp_swapped', 'src/par_iter.rs', """        self.reduce(|x, y| match get_key(&x).cmp(&get_key(&y)) {
-            Ordering::Greater | Ordering::Equal => x,
-            Ordering::Less => y,
+            Ordering::Greater => x,
+            Ordering::Less | Ordering::Equal => y,
         })""", """        self.reduce(|x, y| match get_key(&y).cmp(&get_key(&x)) {
-            Ordering::Greater | Ordering::Equal => x,
-            Ordering::Less => y,
+            Ordering::Greater => x,
+            Ordering::Less | Ordering::Equal => y,
         })""", 'C03-WRAP')
 m('C03', 'fold_ignores_reduce', 'src/par_iter.rs', 'self.reduce(fold).unwrap_or_else(identity)', '{ let _ = self.reduce(fold); identity() }', 'C03-WRAP')
 
@@ -89,6 +89,37 @@ m('C09', 'no_seq_dispatch_find', 'src/core/map_fil_find.rs', """    match params
     }""", """    let _ = seq_map_fil_find::<I, Out, Map, Fil>;
     par_map_fil_find(params, iter, map, filter)""", 'S1')
 
+m('C09', 'max_by_keeps_first_on_tie', 'src/par_iter.rs', """        self.reduce(|x, y| match compare(&x, &y) {
+            Ordering::Greater => x,
+            Ordering::Less | Ordering::Equal => y,
+        })""", """        self.reduce(|x, y| match compare(&x, &y) {
+            Ordering::Greater | Ordering::Equal => x,
+            Ordering::Less => y,
+        })""", 'C09-TIES')
+m('C09', 'max_by_key_keeps_first_on_tie', 'src/par_iter.rs', """        self.reduce(|x, y| match get_key(&x).cmp(&get_key(&y)) {
+            Ordering::Greater => x,
+            Ordering::Less | Ordering::Equal => y,
+        })""", """        self.reduce(|x, y| match get_key(&x).cmp(&get_key(&y)) {
+            Ordering::Greater | Ordering::Equal => x,
+            Ordering::Less => y,
+        })""", 'C09-TIES')
+m('C09', 'min_by_keeps_last_on_tie', 'src/par_iter.rs', """            Ordering::Less | Ordering::Equal => x,
+            Ordering::Greater => y,""", """            Ordering::Less => x,
+            Ordering::Greater | Ordering::Equal => y,""", 'C09-TIES')
+m('C09', 'max_is_reduce_with_swapped_max', 'src/par_iter.rs', 'self.reduce(Ord::max)', 'self.reduce(|a, b| Ord::max(b, a))', 'C09-TIES')
+b('C09', 'max_delegates_to_max_by', 'src/par_iter.rs', 'self.reduce(Ord::max)', 'self.max_by(Ord::cmp)')
+b('C09', 'min_delegates_to_min_by', 'src/par_iter.rs', 'self.reduce(Ord::min)', 'self.min_by(Ord::cmp)')
+b('C09', 'max_by_key_delegates_to_max_by', 'src/par_iter.rs', """        self.reduce(|x, y| match get_key(&x).cmp(&get_key(&y)) {
+            Ordering::Greater => x,
+            Ordering::Less | Ordering::Equal => y,
+        })""", """        self.max_by(|x, y| get_key(x).cmp(&get_key(y)))""")
+b('C09', 'max_by_swapped_compare', 'src/par_iter.rs', """        self.reduce(|x, y| match compare(&x, &y) {
+            Ordering::Greater => x,
+            Ordering::Less | Ordering::Equal => y,
+        })""", """        self.reduce(|x, y| match compare(&y, &x) {
+            Ordering::Less => x,
+            Ordering::Greater | Ordering::Equal => y,
+        })""")
 # ------------------------------------------------------------------------------------------ C10
 m('C10', 'no_skip_to_end_chunk', 'src/core/map_fil_find.rs', """                if result.is_some() {
                     iter.skip_to_end();
@@ -153,7 +184,9 @@ m('C10', 'do_spawn_ignores_has_more', 'src/core/runner.rs', '_ => !matches!(has_
 # ------------------------------------------------------------------------------------------ C11
 m('C11', 'exact_treated_as_min', 'src/core/runner.rs', """                ResolvedChunkSize::Exact(x) => Some(x),
                 ResolvedChunkSize::Min(x) => {""", """                ResolvedChunkSize::Exact(x) | ResolvedChunkSize::Min(x) => {""", 'C11-RUNNER')
-m('C11', 'calc_exact_as_min', 'src/core/runner_settings/chunk_size.rs', 'ChunkSize::Exact(x) => ResolvedChunkSize::Exact(x.into()),', 'ChunkSize::Exact(x) => ResolvedChunkSize::Min(x.into()),', 'C11-RESOLVE')
+m('C11', 'calc_exact_as_min', 'src/core/runner_settings/chunk_size.rs', 'ChunkSize::Exact(x) => ResolvedChunkSize::Exact(exact_chunk_size(input_len, x.into())),', 'ChunkSize::Exact(x) => ResolvedChunkSize::Min(exact_chunk_size(input_len, x.into())),', 'C11-RESOLVE')
+m('C11', 'exact_clamped_by_half_len', 'src/core/runner_settings/chunk_size.rs', 'Some(len) => chunk_size.min(len.max(1)),', 'Some(len) => chunk_size.min((len / 2).max(1)),', 'C11-RESOLVE')
+m('C11', 'exact_clamped_by_threads', 'src/core/runner_settings/chunk_size.rs', 'ChunkSize::Exact(x) => ResolvedChunkSize::Exact(exact_chunk_size(input_len, x.into())),', 'ChunkSize::Exact(x) => ResolvedChunkSize::Exact(exact_chunk_size(input_len.map(|n| n / max_num_threads), x.into())),', 'C11-RESOLVE')
 m('C11', 'task_doubles_chunk', 'src/core/map_fil_red.rs', 'while let Some(chunk) = iter.next_chunk_x(c) {', 'while let Some(chunk) = iter.next_chunk_x(c * 2) {', 'C11-PULL')
 m('C11', 'closure_constant_chunk', 'src/core/map_fil_cnt.rs', 'let task = |c| task(&iter, &map, &filter, c);', 'let task = |c: usize| task(&iter, &map, &filter, c.max(64));', 'C11-TASKARG')
 m('C11', 'trailing_spawn_inner', 'src/core/runner.rs', """            handles.push(s.spawn(move || thread_task(chunk)));
@@ -209,6 +242,21 @@ pub(crate) fn heap_sort_into_pinned_vec""", """    std::mem::forget(vectors);
 pub(crate) fn heap_sort_into_pinned_vec""", 'C13-LEAK')
 m('C13', 'raw_read_in_task', 'src/core/map_fil_col_x.rs', 'collected.extend(chunk.map(&map).filter(&filter));', 'collected.extend(chunk.map(&map).filter(&filter));\n                if let Some(x) = collected.last() { let _dup = unsafe { std::ptr::read(x) }; std::mem::forget(_dup); }', 'C13-INVENTORY')
 
+m('C07', 'run_map_collect_skips_first_handle', 'src/core/runner.rs', """            let mut vec = vec![];
+            for x in handles {
+                vec.push(x.join().expect("failed to join the thread"));
+            }
+            vec""", """            handles.into_iter().skip(1).map(|x| x.join().expect("failed to join the thread")).collect()""", 'S2')
+m('C14', 'run_map_collect_swallows_panics', 'src/core/runner.rs', """            let mut vec = vec![];
+            for x in handles {
+                vec.push(x.join().expect("failed to join the thread"));
+            }
+            vec""", """            handles.into_iter().filter_map(|x| x.join().ok()).collect()""", 'S2')
+b('C07', 'run_map_collect_joined', 'src/core/runner.rs', """            let mut vec = vec![];
+            for x in handles {
+                vec.push(x.join().expect("failed to join the thread"));
+            }
+            vec""", """            handles.into_iter().map(|x| x.join().expect("failed to join the thread")).collect()""")
 # ------------------------------------------------------------------------------------------ C14
 m('C14', 'manually_drop_removed', 'src/core/map_col.rs', """            let collected = std::mem::ManuallyDrop::new(collected);
             let task = |c| task(&iter, &map, &collected, offset, c);
@@ -560,6 +608,17 @@ m('C14', 'user_filter_in_merge_window', 'src/core/map_fil_col.rs', """pub fn par
     }""", 'C14-WINDOW')
 
 # ------------------------------------------------------------------------------------------ C15
+m('C15', 'exact_chunk_not_clamped_by_len', 'src/core/runner_settings/chunk_size.rs', 'Some(len) => chunk_size.min(len.max(1)),', 'Some(_len) => chunk_size,', 'C15-CHUNKCAP')
+m('C15', 'min_chunk_checked_mul_catch_all', 'src/core/runner_settings/chunk_size.rs', """            let one_round_len = max_num_threads.saturating_mul(chunk_size);
+            match one_round_len.cmp(&len) {
+                Ordering::Greater => div_ceil(len, max_num_threads),
+                _ => chunk_size,
+            }""", """            match max_num_threads.checked_mul(chunk_size) {
+                Some(one_round_len) if one_round_len.cmp(&len) == Ordering::Greater => div_ceil(len, max_num_threads),
+                _ => chunk_size,
+            }""", 'C15-CHUNKCAP')
+m('C11', 'runner_resolves_with_foreign_len', 'src/core/runner.rs', 'let runner = Self::new(params, task_type, iter.try_get_len());', 'let runner = Self::new(params, task_type, iter.try_get_len().map(|n| n / 2));', 'C11-RESOLVE')
+b('C15', 'exact_clamp_if_else', 'src/core/runner_settings/chunk_size.rs', 'Some(len) => chunk_size.min(len.max(1)),', 'Some(len) => std::cmp::min(chunk_size, std::cmp::max(len, 1)),')
 m('C15', 'task_buffer_sized_by_chunk', 'src/core/map_fil_col_x.rs', """            let mut collected = vec![];
             while let Some(chunk) = iter.next_chunk_x(c) {""", """            let mut collected = Vec::with_capacity(c);
             while let Some(chunk) = iter.next_chunk_x(c) {""", 'C15-ALLOC')
